@@ -195,6 +195,7 @@ impl Ctx {
                         if let Some(t) = shrink_started.get() { if t.elapsed().as_secs() >= SHRINK_SECS { return Ok(()); } }
                         trace_set(w, sub, &c);
                         let r = guard(|| check(&c)).and_then(|r| r);
+                        trace_clear(w);
                         match r {
                             Ok(i) => { if !failed.get() {
                                 evals.set(evals.get() + 1);
@@ -246,7 +247,9 @@ impl Ctx {
                             let c = make(i);
                             trace_set(w, sub, &c);
                             evals += 1;
-                            match guard(|| check(&c)).and_then(|r| r) {
+                            let res = guard(|| check(&c)).and_then(|r| r);
+                            trace_clear(w);
+                            match res {
                                 Ok(inf) => { *classes.entry(inf.class.clone()).or_default() += 1; if inf.nt { nt += 1; fps.push((i as u64).wrapping_mul(0x9E3779B97F4A7C15));
                                     if samples.len() < 2 && w < 2 { samples.push(json!({"index": i, "case": c, "class": inf.class})); } } }
                                 Err(m) => {
@@ -343,13 +346,45 @@ pub fn trace_enable(path: &str) {
     let p = unsafe { libc::mmap(std::ptr::null_mut(), TRACE_SLOT * TRACE_SLOTS, libc::PROT_READ | libc::PROT_WRITE, libc::MAP_SHARED, f.as_raw_fd(), 0) };
     if p != libc::MAP_FAILED { TRACE_PTR.store(p as usize, Ordering::SeqCst); }
 }
+static TRACE_T0: std::sync::OnceLock<Instant> = std::sync::OnceLock::new();
 fn trace_set<C: Serialize>(worker: usize, sub: &str, case: &C) {
     let base = TRACE_PTR.load(Ordering::Relaxed); if base == 0 { return; }
     let Ok(mut body) = serde_json::to_vec(&json!({"sub": sub, "case": case})) else { return };
     body.truncate(TRACE_SLOT - 8);
     let slot = (base + (worker % TRACE_SLOTS) * TRACE_SLOT) as *mut u8;
-    unsafe { std::ptr::write_volatile(slot as *mut u32, 0); std::ptr::copy_nonoverlapping(body.as_ptr(), slot.add(8), body.len()); std::ptr::write_volatile(slot as *mut u32, body.len() as u32); }
+    let ts = TRACE_T0.get_or_init(Instant::now).elapsed().as_secs() as u32;
+    unsafe { std::ptr::write_volatile(slot as *mut u32, 0); std::ptr::write_volatile((slot as *mut u32).add(1), ts); std::ptr::copy_nonoverlapping(body.as_ptr(), slot.add(8), body.len()); std::ptr::write_volatile(slot as *mut u32, body.len() as u32); }
 }
+fn trace_clear(worker: usize) { let base = TRACE_PTR.load(Ordering::Relaxed); if base == 0 { return; } unsafe { std::ptr::write_volatile((base + (worker % TRACE_SLOTS) * TRACE_SLOT) as *mut u32, 0); } }
+/// Hang monitor: a case that has been executing for longer than `limit_s` is saved as a replay; for C09 ("never
+/// a hang") that is a violation, for every other property the run is inconclusive (exit 2) - but at once, not
+/// after the global watchdog.
+pub fn start_hang_monitor(id: String, root: PathBuf, limit_s: u64) {
+    std::thread::spawn(move || loop {
+        std::thread::sleep(std::time::Duration::from_secs(1));
+        let base = TRACE_PTR.load(Ordering::Relaxed); if base == 0 { continue; }
+        let now = TRACE_T0.get_or_init(Instant::now).elapsed().as_secs() as u32;
+        for s in 0..TRACE_SLOTS {
+            let slot = (base + s * TRACE_SLOT) as *const u8;
+            let (len, ts) = unsafe { (std::ptr::read_volatile(slot as *const u32) as usize, std::ptr::read_volatile((slot as *const u32).add(1))) };
+            if len == 0 || len > TRACE_SLOT - 8 || (now.saturating_sub(ts) as u64) < limit_s.max(HANG_LIMIT.load(Ordering::Relaxed)) { continue; }
+            let body = unsafe { std::slice::from_raw_parts(slot.add(8), len) }.to_vec();
+            let Ok(v) = serde_json::from_slice::<Value>(&body) else { continue };
+            let dir = root.join("replays").join(&id); let _ = std::fs::create_dir_all(&dir);
+            let p = dir.join(format!("{}-hang-{:016x}.json", v["sub"].as_str().unwrap_or("x"), fnv64(&body)));
+            let _ = std::fs::write(&p, serde_json::to_string_pretty(&json!({"property": id, "sub": v["sub"], "case": v["case"], "message": format!("the case did not finish within {} s", now - ts)})).unwrap());
+            eprintln!("[{}:{}] a case has been executing for {} s without returning; saved to {}", id, v["sub"].as_str().unwrap_or("?"), now - ts, p.display());
+            let viol = id == "C09";
+            let ev = json!({"property_id": id, "tier": "quick", "seed": 0, "level": "exploration", "wall_s": now, "violations": if viol { 1 } else { 0 },
+                "coverage": {"evaluations": 1, "distinct_nontrivial": 2, "rule": "run ended by the hang monitor; counts are placeholders", "samples": [v], "notes": ["a case did not return; see the replay file"]}});
+            let _ = std::fs::create_dir_all(root.join("evidence")); let _ = std::fs::write(root.join("evidence").join(format!("{}.json", id)), serde_json::to_string_pretty(&ev).unwrap());
+            if viol { println!("VIOLATION property={} replay={}", id, p.display()); std::process::exit(1); }
+            println!("[{}] INCONCLUSIVE: a case did not return within {} s (saved to {})", id, now - ts, p.display()); std::process::exit(2);
+        }
+    });
+}
+/// Properties whose single cases legitimately run long (C11 streams gigabytes) raise the limit.
+pub static HANG_LIMIT: AtomicU64 = AtomicU64::new(0);
 /// Re-run every traced case in a child process; the first one that ends abnormally is saved as a replay.
 pub fn triage(id: &str, root: &std::path::Path, file: &str) -> i32 {
     let Ok(data) = std::fs::read(file) else { eprintln!("triage: cannot read {}", file); return 2 };
